@@ -929,34 +929,7 @@ func runF5(p *an.Prog, r *an.Result) {
 				return // failure return
 			}
 			r.Counts["numeric success returns"]++
-			good := true
-			for _, o := range an.Origins(res[0], an.StepValue) {
-				switch x := o.(type) {
-				case *ssa.Const:
-					// bool -> 0/1
-				case *ssa.Extract:
-					c, isCall := x.Tuple.(*ssa.Call)
-					if !isCall || an.CallName(&c.Call) != want || x.Index != 0 {
-						good = false
-						continue
-					}
-					// its error is checked: this return is on the err == nil side
-					ev := errorValueOf(c, 1)
-					checked := false
-					for _, g := range an.GuardsAtInstr(ret) {
-						if bo, ok := g.Cond.(*ssa.BinOp); ok && bo.X == ev && an.IsNilConst(bo.Y) {
-							if (bo.Op == token.NEQ && !g.True) || (bo.Op == token.EQL && g.True) {
-								checked = true
-							}
-						}
-					}
-					if !checked {
-						good = false
-					}
-				default:
-					good = false
-				}
-			}
+			good := f5Checked(p, ret, res[0], want, 0)
 			if good {
 				r.OK(fname, "success value comes from "+want+" with its error checked", ret.Pos(), "whole-string parse: trailing text is an error")
 			} else {
@@ -965,6 +938,85 @@ func runF5(p *an.Prog, r *an.Result) {
 		})
 	}
 	r.Floor("numeric success returns", 4)
+}
+
+// f5Checked: at return ret, v is a constant, the result of a call of want whose
+// error was found nil on the way to ret, or the first result of a module helper
+// found successful on the way to ret (error nil, or ok true) every successful
+// return of which is itself f5Checked.
+func f5Checked(p *an.Prog, ret *ssa.Return, v ssa.Value, want string, depth int) bool {
+	if depth > 3 {
+		return false
+	}
+	for _, o := range an.Origins(v, an.StepValue) {
+		switch x := o.(type) {
+		case *ssa.Const:
+			// bool -> 0/1, and the zero beside a failure
+		case *ssa.Extract:
+			c, isCall := x.Tuple.(*ssa.Call)
+			if !isCall || x.Index != 0 {
+				return false
+			}
+			sig := c.Call.Signature()
+			if sig.Results().Len() != 2 {
+				return false
+			}
+			// the second result was found good: err == nil, or ok
+			second := errorValueOf(c, 1)
+			if second == nil {
+				return false
+			}
+			found := false
+			for _, g := range an.GuardsAtInstr(ret) {
+				if bo, ok := g.Cond.(*ssa.BinOp); ok && bo.X == second && an.IsNilConst(bo.Y) {
+					if (bo.Op == token.NEQ && !g.True) || (bo.Op == token.EQL && g.True) {
+						found = true
+					}
+				}
+				if g.Cond == second && g.True && isBoolType(second.Type()) {
+					found = true
+				}
+			}
+			if !found {
+				return false
+			}
+			if an.CallName(&c.Call) == want {
+				continue
+			}
+			h := c.Call.StaticCallee()
+			if h == nil || !p.InModule(h) || h.Blocks == nil {
+				return false
+			}
+			okAll, n := true, 0
+			an.EachInstr(h, func(in ssa.Instruction) {
+				hr, isRet := in.(*ssa.Return)
+				if !isRet {
+					return
+				}
+				hres := resultsOf(hr)
+				if len(hres) != 2 {
+					okAll = false
+					return
+				}
+				if b, isC := an.ConstBool(hres[1]); isC && !b {
+					return // failure
+				}
+				if !isBoolType(hres[1].Type()) && !an.IsNilConst(hres[1]) {
+					return // failure: an error is returned
+				}
+				n++
+				if !f5Checked(p, hr, hres[0], want, depth+1) {
+					okAll = false
+				}
+			})
+			if !okAll || n == 0 {
+				return false
+			}
+		default:
+			return false
+		}
+	}
+	return true
 }
 
 // ---------------------------------------------------------------------------
